@@ -62,6 +62,7 @@ class Result:
         self.panics = {}
         self.distinct = set()
         self.extra = {}
+        self.hooks = {}           # coverage counter name -> total hits in the code under test
 
 
 def outcome_class(ev, scen_keys):
@@ -69,7 +70,7 @@ def outcome_class(ev, scen_keys):
     result its shape (flag value, Some/None) - used for coverage accounting."""
     sig = []
     for k in sorted(ev):
-        if k in scen_keys or k in ("st", "pan", "neg"):
+        if k in scen_keys or k in ("st", "pan", "neg", "cov"):
             continue
         v = ev[k]
         if isinstance(v, bool):
@@ -149,6 +150,8 @@ def run_pipeline(prop, group_scen, tier, seed, res, bins_release=False, trace_sp
                     res.extra.setdefault("neg_not_rejected", []).append(ev)
                 continue
             res.events += 1
+            for hk, hv in ev.get("cov", {}).items():
+                res.hooks[hk] = res.hooks.get(hk, 0) + hv
             op = ev.get("op")
             po = res.per_op.setdefault(op, {"events": 0, "classes": {}})
             po["events"] += 1
@@ -218,6 +221,7 @@ def finish(prop, tier, seed, res, t0, level, rule, assumptions, extra_cov=None, 
                                   {k: v for k, v in ev.items() if k in ("op", "bits", "neg") or k == ev.get("neg")}
                                   for ev in res.extra.get("neg_not_rejected", [])[:5]]},
         "known_findings_hit": res.known_hits,
+        "hook_counters": dict(sorted(res.hooks.items())),
         "hangs": res.hangs,
         "crashes": res.crashes,
         "violating_events": nviol,
